@@ -44,6 +44,10 @@ pub struct WireCase {
     /// the driver writes a command before every receive (pipelining caller)
     #[serde(default)]
     pub send_between: bool,
+    /// the peer stays connected and silent after its last byte (no end of stream): everything
+    /// complete must be delivered without waiting for bytes that never come
+    #[serde(default)]
+    pub silent: bool,
 }
 
 pub struct Material {
@@ -101,6 +105,7 @@ fn run_case(case: &WireCase, m: &Material, extra: usize) -> Outcome {
         extra_receives: extra,
         error_at: case.error_at.clone(),
         send_between: case.send_between,
+        silent: case.silent,
     })
 }
 
@@ -266,6 +271,9 @@ fn trace_case(case: &WireCase, extra: usize) -> Vec<String> {
     ));
     if let Some(e) = &m.encoded {
         t.push(format!("response boundaries: {:?}", e.boundaries));
+    }
+    if case.silent {
+        t.push("the peer stays connected and silent after its last byte (no end of stream)".into());
     }
     t.push(format!(
         "flavour={:?} segmentation={} {:?} pending={:?} barrier={:?}",
@@ -590,13 +598,23 @@ fn eval_c03(case: &WireCase) -> Eval {
                 ),
             ));
         }
-        if o.terminal != Terminal::CleanEof {
+        let expected_end = if case.silent {
+            Terminal::Starved
+        } else {
+            Terminal::CleanEof
+        };
+        if o.terminal != expected_end {
             return Some(Violation::new(
                 "C03",
                 "terminal",
                 format!(
-                    "after the last response receive returned {:?}, expected a clean end",
-                    o.terminal
+                    "after the last response receive returned {:?}, expected {}",
+                    o.terminal,
+                    if case.silent {
+                        "it to wait for the silent peer"
+                    } else {
+                        "a clean end"
+                    }
                 ),
             ));
         }
@@ -628,6 +646,11 @@ impl Check for C03 {
         known: &KnownFindings,
     ) {
         let mut rng = Rng::new(mix(seed, "C03", index));
+        // a quarter of the run indexes have a peer that stays connected and silent at the end
+        let silent = Rng::new(mix(seed, "C03.silent", index)).chance(1, 4);
+        if silent {
+            ctx.counters.bump("silent_peer_streams");
+        }
         // a third of the run indexes write a command before every receive (pipelining caller)
         let send_between = rng.chance(1, 3);
         let class = gen::gen_class_with_huge(&mut rng);
@@ -717,6 +740,7 @@ impl Check for C03 {
                     flavour: fl,
                     error_at: None,
                     send_between: send_between,
+                    silent,
                 };
                 ctx.about_to_eval(&case);
                 let ev = eval_c03(&case);
@@ -1100,6 +1124,7 @@ impl Check for C10 {
                         flavour: fl,
                     error_at: None,
                     send_between: false,
+                    silent: false,
                     };
                     ctx.about_to_eval(&case);
                     let ev = eval_c10(&case);
@@ -1128,6 +1153,7 @@ impl Check for C10 {
                     flavour: fl,
                     error_at: None,
                     send_between: false,
+                    silent: false,
                 };
                 // how many reads does the undisturbed run take?
                 let reads = run_case(&case, &case.materialize(), 0).reads;
@@ -1310,6 +1336,12 @@ impl Check for C02 {
         known: &KnownFindings,
     ) {
         let mut rng = Rng::new(mix(seed, "C02", index));
+        // a quarter of the run indexes have a peer that stays connected and silent at the end
+        // (reference and variants alike)
+        let silent = Rng::new(mix(seed, "C02.silent", index)).chance(1, 4);
+        if silent {
+            ctx.counters.bump("silent_peer_streams");
+        }
         // a third of the run indexes write a command before every receive (pipelining caller)
         let send_between = rng.chance(1, 3);
         let class = gen::gen_class_with_huge(&mut rng);
@@ -1368,8 +1400,9 @@ impl Check for C02 {
             seg_name: "whole".into(),
             pending: vec![0],
             flavour: Flavour::Blocking,
-                    error_at: None,
-                    send_between: send_between,
+            error_at: None,
+            send_between,
+            silent,
         };
         ctx.about_to_eval(&base);
         let m = base.materialize();
@@ -1495,6 +1528,16 @@ pub struct C09;
 
 const C09_EXTRA: usize = 2;
 
+/// How an operation that needs more bytes than the peer sent ends: an unexpected end of stream,
+/// or — with a peer that stays connected and silent — by waiting.
+fn end_of_input(silent: bool) -> Terminal {
+    if silent {
+        Terminal::Starved
+    } else {
+        Terminal::UnexpectedEof
+    }
+}
+
 fn eval_c09(case: &WireCase) -> Eval {
     let m = case.materialize();
     let base = alloc::begin();
@@ -1582,7 +1625,7 @@ fn eval_c09(case: &WireCase) -> Eval {
                 return None;
             }
             GreetingVerdict::Eof => {
-                if o.connect != Err(Terminal::UnexpectedEof) {
+                if o.connect != Err(end_of_input(case.silent)) {
                     return Some(Violation::new(
                         "C09",
                         "greeting",
@@ -1592,7 +1635,7 @@ fn eval_c09(case: &WireCase) -> Eval {
                 return None;
             }
             GreetingVerdict::EofOrInvalid => {
-                if o.connect != Err(Terminal::UnexpectedEof) && o.connect != Err(Terminal::Invalid)
+                if o.connect != Err(end_of_input(case.silent)) && o.connect != Err(Terminal::Invalid)
                 {
                     return Some(Violation::new(
                         "C09",
@@ -1607,7 +1650,7 @@ fn eval_c09(case: &WireCase) -> Eval {
             }
         }
         // P4: nothing fabricated, malformed lines rejected
-        if let Err(d) = scan::check_against_scan(&sc, &o) {
+        if let Err(d) = scan::check_against_scan(&sc, &o, case.silent) {
             return Some(Violation::new("C09", "fabricated_or_unrejected", d));
         }
         None
@@ -1638,6 +1681,11 @@ impl Check for C09 {
         known: &KnownFindings,
     ) {
         let mut rng = Rng::new(mix(seed, "C09", index));
+        // a quarter of the run indexes have a peer that stays connected and silent at the end
+        let silent = Rng::new(mix(seed, "C09.silent", index)).chance(1, 4);
+        if silent {
+            ctx.counters.bump("silent_peer_streams");
+        }
         // a third of the run indexes write a command before every receive (pipelining caller)
         let send_between = rng.chance(1, 3);
         let greeting = gen::default_greeting();
@@ -1737,6 +1785,7 @@ impl Check for C09 {
                 flavour: Flavour::Blocking,
                 error_at: None,
                     send_between: false,
+                    silent: false,
             };
             let m = probe.materialize();
             let glen = m.barrier.unwrap_or(m.stream.len());
@@ -1763,8 +1812,9 @@ impl Check for C09 {
                             vec![0]
                         },
                         flavour: fl,
-                    error_at: None,
-                    send_between: send_between,
+                        error_at: None,
+                        send_between,
+                        silent,
                     };
                     ctx.about_to_eval(&case);
                     let ev = eval_c09(&case);
@@ -1928,9 +1978,9 @@ pub fn eval_greeting(case: &WireCase) -> Eval {
         let ok = match &verdict {
             GreetingVerdict::Valid(v) => o.connect == Ok(v.clone()),
             GreetingVerdict::Invalid => o.connect == Err(Terminal::Invalid),
-            GreetingVerdict::Eof => o.connect == Err(Terminal::UnexpectedEof),
+            GreetingVerdict::Eof => o.connect == Err(end_of_input(case.silent)),
             GreetingVerdict::EofOrInvalid => {
-                o.connect == Err(Terminal::UnexpectedEof) || o.connect == Err(Terminal::Invalid)
+                o.connect == Err(end_of_input(case.silent)) || o.connect == Err(Terminal::Invalid)
             }
         };
         if ok {
@@ -1965,6 +2015,16 @@ pub fn run_greeting_index<C: Clone + serde::Serialize>(
 ) {
     let (stream, kind) = gen_greeting_stream(rng);
     ctx.counters.bump(&format!("greeting.{}", kind));
+    // a third of the greetings come from a peer that stays connected and silent afterwards
+    // (decided from the bytes, so that the run's other random choices are unaffected)
+    let silent = {
+        let mut h = Fnv::new();
+        h.write(&stream);
+        h.finish() % 3 == 0
+    };
+    if silent {
+        ctx.counters.bump("silent_peer_streams");
+    }
     if stream.len() > 4096 {
         ctx.counters.bump("greeting_longer_than_4096");
     }
@@ -2015,8 +2075,9 @@ pub fn run_greeting_index<C: Clone + serde::Serialize>(
                     vec![0]
                 },
                 flavour: fl,
-                    error_at: None,
-                    send_between: false,
+                error_at: None,
+                send_between: false,
+                silent,
             };
             ctx.about_to_eval(&wrap(case.clone()));
             let ev = eval_greeting(&case);
